@@ -1115,6 +1115,7 @@ def check_C08(tier, seed, replay=None):
             raise P.Inconclusive("build failed: " + v.build_err)
         return v.run(linputs, lopts, pl_, timeout_ms=60000, mem_mb=8000)
     run_l.obs = P.parallel(lprep, list(zip(lvars, lplans)))
+    run_l.variants, run_l.groups, run_l.inputs, run_l.options = lvars, lg, linputs, lopts
     from rt import load_obs as _lo
     for vx_ in range(len(lvars)):
         for key_, o_ in _lo(run_l.obs[vx_]).items():
